@@ -58,9 +58,11 @@ Pop == SubSeq(frames, 1, Len(frames) - 1)
 Step ==
   CASE Is("get") ->
         IF Ev.f
-        THEN \* a fresh item: everything delivered so far is consumed; spans do not go backwards
-             IF k = K /\ Ev.i = K + 1 /\ Ev.last >= maxline /\ Ev.first <= Ev.last
-             THEN /\ k' = k + 1 /\ K' = K + 1 /\ maxline' = Ev.last /\ UNCHANGED <<frames, sd, tables, memo>> /\ Keep
+        THEN \* a fresh item: everything delivered so far is consumed.  (Spans may go backwards: a comment found
+             \* between continuation lines is delivered after its statement, an included file counts its own lines.)
+             IF k = K /\ Ev.i = K + 1 /\ Ev.first <= Ev.last
+             THEN /\ k' = k + 1 /\ K' = K + 1 /\ maxline' = (IF Ev.last > maxline THEN Ev.last ELSE maxline)
+                  /\ UNCHANGED <<frames, sd, tables, memo>> /\ Keep
              ELSE Fail("GetFresh")
         ELSE \* a re-delivery returns the same object that was pushed back last
              IF k < K /\ Ev.i = k + 1
